@@ -695,6 +695,34 @@ theorem run_antismash_any_options_meets_spec (o : RunOpts) (r : RunIn) (wf : (ef
     specFull o r (runFull o r) = true :=
   full_meets_spec o r wf
 
+/-! ## the directory theorems with the operating system's guarantees as only hypotheses -/
+
+/-- `PrepIn.WF` holds at every call of `prepare_output_directory` that the operating system can
+    produce: absolute working directory, plain listing names.  The "directory name is not empty"
+    conjunct needs no assumption — an empty argument is replaced by an absolute path, a non-empty one
+    is used as it is. -/
+theorem call_invariants_hold (c : CallIn) (h : c.envOk = true) : (effective c).1.WF = true :=
+  effective_wf c h
+
+/-- `accept_cases` at the call, for any `name` argument including the empty one -/
+theorem accept_cases_at_call (c : CallIn) (h : c.envOk = true) :
+    (prepareCall c).1.err = none ↔ specAccepts (effective c).1 = true :=
+  accept_cases (effective c).1 (effective_wf c h)
+
+/-- the refusal theorem of the whole run over all option sets, hypotheses reduced to `envOk` -/
+theorem refused_run_touches_only_its_log_env (o : RunOpts) (r : RunIn) (h : r.call.envOk = true)
+    (hr : specAccepts (afterLogging (effective r.call).1) = false) :
+    (runFull o r).out.target = (afterLogging (effective r.call).1).target ∧
+    ∃ tail, (runFull o r).out.trace =
+        (setupLogging (logPlace (effective r.call).1) (effective r.call).1.target).2 ++ tail ∧
+      tail.any Ev.touchesFiles = false :=
+  refused_run_touches_only_its_log_any_options o r (effective_wf r.call h) hr
+
+/-- … and the executable spec of the whole run -/
+theorem run_antismash_meets_spec_env (o : RunOpts) (r : RunIn) (h : r.call.envOk = true) :
+    specFull o r (runFull o r) = true :=
+  full_meets_spec o r (effective_wf r.call h)
+
 /-! ## non-vacuity: concrete runs on which the interesting branches fire -/
 
 /-- two records, two modules each; the existing target holds old bytes, a bystander file exists -/
@@ -783,6 +811,8 @@ example : (writeToFileIn ⟨.ascii⟩ ⟨[⟨none⟩], [[("a", .mod true (.str "
 /-- reporting: a `TypeError` from a module's `to_json()` is logged, a `ValueError` is not; both reach the caller -/
 example : Ev.logErr ∈ (writeToFile (exResults (.raises true "TypeError")) (.path "res.json") exDir).trace := by decide
 example : Ev.logErr ∉ (writeToFile (exResults (.raises true "ValueError")) (.path "res.json") exDir).trace := by decide
+/-- `envOk` says nothing about the `name` argument: it holds for the empty one -/
+example : (exCall "/data/genome.gbk" "").envOk = true ∧ (exCall "/data/genome.gbk" "").nameArg = "" := by decide
 /-- orjson's integer range is a fault boundary -/
 example : (PyVal.int 18446744073709551615).faulty = false ∧ (PyVal.int 18446744073709551616).faulty = true := by
   decide
